@@ -32,6 +32,7 @@ func runC13(r *an.Run) {
 	c13SpellingInert(r)
 	c13OrderOnly(r)
 	memoDependencies(r, "R4-no-spelling-is-special")
+	lineInfoReceiver(r, "R6-change-names-do-not-steer-positions")
 }
 
 func c13CommentsSkipped(r *an.Run) {
